@@ -55,6 +55,10 @@ func symCert(role int, label string) *certModel {
 	}
 	// SubjectKeyIdentifier extension value = OCTET STRING ski
 	c.Extensions = []pkix.Extension{{Id: oidSKI, Value: append([]byte{0x04, byte(len(m.ski))}, m.ski...)}}
+	if role == 0 && verifrt.Choose(2) == 1 {
+		c.Extensions = nil // an end-entity certificate without subject key identifier
+		m.ski = []byte{0, 0}
+	}
 	m.cert = c
 	certModels[c] = m
 	return m
